@@ -65,14 +65,30 @@ def jobs(tier, seed, prop):
     ndim, nit = (2, 3) if tier == "quick" else (2, 4)
     pre = '#include "tsg_shim.h"\nint tsg_exc;\n#define TSG_NDIM %d\n#define TSG_NIT %d\n' % (ndim, nit)
     R = X.Rules()
-    t, info = graddesc.emit_adaptive(R)
+    t, info = graddesc.emit_adaptive(R, abstract_test=True)
     fl = ["%s:%d %s" % (f["file"], f["line"], f["name"]) for f in info["functions"]]
+    if tier == "thorough":
+        Ri = X.Rules()
+        ti, infoi = graddesc.emit_adaptive(Ri)
+        out.append(Job("graddesc.adaptive.ieee", pre + '#line 1 "/verif/contracts/graddesc.c"\n' + cf.text(("text",)) + ti + cf.text(("harness",), ["h_GradientDescent_adaptive"]),
+                       "h_GradientDescent_adaptive", unwind=nit + 2, timeout=3000, backends=[["--refine-arithmetic"], ["--sat-solver", "cadical"]], functions=fl, info=infoi, replay=replay_adaptive(prop),
+                       bounded="dimensions <= %d, max_iterations <= %d (full unwinding), IEEE descent test" % (ndim, nit),
+                       assumed=["callbacks func/grad/proj return arbitrary doubles", "computeStationarityResidual returns any value (stub)"],
+                       label="GradientDescent (adaptive, projected) against F17 with the IEEE descent test"))
     out.append(Job("graddesc.adaptive", pre + '#line 1 "/verif/contracts/graddesc.c"\n' + cf.text(("text",)) + t + cf.text(("harness",), ["h_GradientDescent_adaptive"]),
-                   "h_GradientDescent_adaptive", unwind=nit + 2, timeout=900 if tier == "quick" else 2400,
+                   "h_GradientDescent_adaptive", unwind=nit + 2, timeout=600 if tier == "quick" else 2400,
                    backends=[["--refine-arithmetic"], ["--sat-solver", "cadical"]], functions=fl, info=info, replay=replay_adaptive(prop),
                    bounded="dimensions <= %d, max_iterations <= %d (full unwinding with unwinding assertions)" % (ndim, nit),
-                   assumed=["callbacks func/grad/proj return arbitrary doubles", "computeStationarityResidual is floating-point only and returns any value (stub)"],
+                   assumed=["callbacks func/grad/proj return arbitrary doubles", "computeStationarityResidual is floating-point only and returns any value (stub)",
+                            "R13: the descent test lhs > rhs + tol is an uninterpreted predicate in this job (F17 is proved for every outcome of the test); the thorough tier also runs the IEEE text"],
                    label="GradientDescent (adaptive, projected) extracted body against F17"))
+    # the same unit at the smallest size: a violation that does not depend on the sizes is found quickly here
+    pre_s = '#include "tsg_shim.h"\nint tsg_exc;\n#define TSG_NDIM 1\n#define TSG_NIT 2\n'
+    out.append(Job("graddesc.adaptive.small", pre_s + '#line 1 "/verif/contracts/graddesc.c"\n' + cf.text(("text",)) + t + cf.text(("harness",), ["h_GradientDescent_adaptive"]),
+                   "h_GradientDescent_adaptive", unwind=4, timeout=600, backends=[["--refine-arithmetic"], ["--sat-solver", "cadical"], []], functions=fl, info=info, replay=replay_adaptive(prop),
+                   bounded="dimensions == 1, max_iterations <= 2 (full unwinding with unwinding assertions)",
+                   assumed=["callbacks func/grad/proj return arbitrary doubles", "computeStationarityResidual returns any value (stub)"],
+                   label="GradientDescent (adaptive, projected) against F17 at the smallest size (fast counterexamples)"))
     R2 = X.Rules()
     t2, info2 = graddesc.emit_const(R2)
     t2 = t2.replace("sqrt(status.residual)", "tsg_sqrt_log(status.residual)")
